@@ -112,6 +112,24 @@ func runMulti(ch *child, cv conversation) (out outcome) {
 			time.Sleep(time.Duration(s.Chan) * time.Millisecond)
 			continue
 		}
+		if s.Kind == "flood" {
+			// interleaved frames keep arriving for s.Chan ms (whatever the server does meanwhile)
+			one := render(frame(1, rtcpRR()), nil, 0) // receiver reports: valid inbound traffic of a playing reader
+			var fr []byte
+			for k := 0; k < 200; k++ {
+				fr = append(fr, one...)
+			}
+			end := time.Now().Add(time.Duration(s.Chan) * time.Millisecond)
+			for time.Now().Before(end) {
+				// as fast as the server takes them: its reader always has a backlog
+				_ = m.nc.SetWriteDeadline(time.Now().Add(200 * time.Millisecond))
+				if _, err := m.nc.Write(fr); err != nil {
+					time.Sleep(5 * time.Millisecond)
+				}
+				out.Sent += len(fr)
+			}
+			continue
+		}
 		subst := strings.NewReplacer("{base}", ch.base(), "{sess}", sess, "{cport}", fmt.Sprint(cport), "{cport1}", fmt.Sprint(cport+1),
 			"{cport2}", fmt.Sprint(cport+2), "{cport3}", fmt.Sprint(cport+3), "{cookie}", fmt.Sprintf("cookie%d", cv.ID))
 		cseq++
@@ -221,9 +239,13 @@ func stalledConversations(cfg childCfg) []conversation {
 				st = append(st, req(action, "{base}/stream", false, "Session", "{sess}"))
 			}
 			// longer than the server's write timeout: the blocked write fails while the request is handled
-			st = append(st, step{Kind: "sleep", Chan: 3200}, step{Kind: "closeconn"})
-			out = append(out, conversation{Seed: "stalled-reader", Multi: true, TruncateAt: -1, Steps: st,
+			quiet := append(append([]step{}, st...), step{Kind: "sleep", Chan: 3200}, step{Kind: "closeconn"})
+			out = append(out, conversation{Seed: "stalled-reader", Multi: true, TruncateAt: -1, Steps: quiet,
 				Muts: []string{"stalled:" + action, fmt.Sprintf("fill-ms:%d", fill)}})
+			// the same, with interleaved frames still arriving when the server gives the session up
+			busy := append(append([]step{}, st...), step{Kind: "flood", Chan: 3200}, step{Kind: "closeconn"})
+			out = append(out, conversation{Seed: "stalled-reader", Multi: true, TruncateAt: -1, Steps: busy,
+				Muts: []string{"stalled+flooding:" + action, fmt.Sprintf("fill-ms:%d", fill)}})
 		}
 	}
 	_ = cfg
